@@ -13,6 +13,7 @@ Decided:
 Not decided: numeric equality with the mirrored free-space model, the 3.0103 dB.
 """
 import ast
+import re
 from ..model import AnalysisError, walk_no_nested, norm, dotted, parent
 from ..dataflow import product_of
 from ..rules import loops_in, loop_reaches_on_all_paths
@@ -26,6 +27,43 @@ def base_name(t):
     while isinstance(t, (ast.Subscript, ast.Attribute)):
         t = t.value
     return t.id if isinstance(t, ast.Name) else None
+
+
+def check_kernel_choice(ctx, ck, rule='R-DEP.kernel-choice'):
+    """scalar_potential / vector_potential hand psi a mask `exact=X[pairs]`: X (the pairs for which the exact kernel
+    may be used) is one expression on every path and does not mention the image index; the selection of the pairs
+    (`[...]`) legitimately depends on k.  In image theory the image of a segment is integrated exactly like the
+    segment of the mirrored free-space model, where a grounded wire and its mirror image are connected conductors."""
+    from ..symx import SymExec
+    m = ctx.model
+    n = 0
+    for q in ('mininec.Mininec.scalar_potential', 'mininec.Mininec.vector_potential'):
+        f = m.func(q)
+        kname = f.params[1] if len(f.params) > 1 else 'k'
+        bases = {}
+        for p_ in SymExec(ctx, f, depth=3, max_paths=4000).run():
+            if p_.end == 'raise':
+                continue
+            for ev in p_.events:
+                if ev[0] == 'call' and isinstance(ev[1].func, ast.Attribute) and ev[1].func.attr == 'psi':
+                    kw = {k_.arg: k_.value for k_ in ev[1].keywords}
+                    v = kw.get('exact')
+                    if v is None:
+                        continue
+                    b = v.value if isinstance(v, ast.Subscript) else v
+                    bases.setdefault(norm(b), (b, [c_ for c_ in p_.conds if isinstance(c_[0], str) and
+                                                   re.search(r'\b%s\b' % kname, c_[0]) and len(c_[0]) < 40]))
+        if not bases:
+            continue
+        n += 1
+        dep = [t_ for t_, (b, cs) in bases.items() if any(isinstance(x_, ast.Name) and x_.id == kname for x_ in ast.walk(b))]
+        ok = len(bases) == 1 and not dep
+        why = 'exact-kernel pairs: %s' % sorted(bases)[0][:80]
+        if not ok:
+            why = ('the pairs integrated with the exact kernel differ with the image index: %s' % '; '.join(
+                '%s when %s' % (t_[:90], ['%s is %s' % c_ for c_ in cs] or 'otherwise') for t_, (b, cs) in sorted(bases.items())))
+        ck.ob(rule, q, ok, f.loc(), why)
+    return n
 
 
 def run(ctx, ck):
@@ -204,6 +242,10 @@ def run(ctx, ck):
     ck.rule('R-SYM.ground-halves', 'statements selecting one half of the ground flags select the other too')
     nsel, nst = check_ground_symmetry(ctx, ck)
     ck.floor('statements selecting a half of the ground flags', nst, 3)
+    # the fill shortcuts of a grounded pulse are only valid for an exactly vertical segment
+    ck.rule('R-LIT.vertical-exact', 'grounded-and-not-vertical is decided by exact zero tests of the horizontal direction components')
+    from ._sym import check_vertical_exact
+    ck.floor('tests in Pulse.is_non_vertical_grounded', check_vertical_exact(ctx, ck), 1)
     # the matrix fill treats the antenna over ground like the antenna plus its image in free space: apart from
     # the image terms (per-pulse ground flags, image sign) nothing in its closure may depend on which *objects*
     # touch the ground - the free-space model has no such notion (kernel choice, connectivity, shortcuts)
@@ -219,6 +261,13 @@ def run(ctx, ck):
               'objects end on the ground plane, which the equivalent free-space model with image wires cannot' % (e.func.qual, e.cls))
     ck.ob('R-EFFECT.no-object-ground-state', fill.qual + '|closure', not hits, fill.loc(),
           'closure of the matrix fill (%d functions) never reads an object\'s is_ground' % len(seen_))
+    # the kernel is chosen by geometry alone: the image term is the free-space term of the mirrored segment
+    ck.rule('R-DEP.kernel-choice', 'which pairs are integrated with the exact kernel does not depend on the image index k')
+    ck.floor('potential calls with a kernel selection', check_kernel_choice(ctx, ck), 2)
+    # the per-half weights of the far field treat both halves of a grounded pulse alike
+    ck.rule('R-SYM.half-weights', 'a store into the per-half far-field weights that picks the half by a literal index is made for both halves')
+    from ._sym import check_half_weight_symmetry
+    ck.floor('per-half weight arrays in the far field', check_half_weight_symmetry(ctx, ck), 2)
     ck.undecided += ['numeric equality with the mirrored free-space model', 'gain 3.0103 dB above the free-space pair']
 
 
